@@ -1,8 +1,8 @@
 //! c06 (also used by C07): hot-swap histories on both runtimes.
-//! stdin: JSON lines {"id", "backend":"vm"|"wasm", "srcs":[src0, src1, …], "events":[[t, k], …], "times":N, "inputs":[[..]..]}
+//! stdin: JSON lines {"id", "backend":"vm"|"wasm", "srcs":[src0, src1, …], "events":[[t, k], …], "times":N, "inputs":[[..]..], "path"?: file of src0}
 //!   the run starts with srcs[0]; before sample t an event swaps to srcs[k] (several events may share t: repeated swaps).
 //! stdout: `id \t status \t nout-per-sample;…(bits)` where each sample is `w,w` and swaps that failed to compile are listed in status.
-use mmh::runner::{canon_bits, panic_msg, vm_start, vm_swap, wasm_start, wasm_swap};
+use mmh::runner::{canon_bits, panic_msg, vm_start_at, vm_swap, wasm_start_at, wasm_swap};
 use std::io::{BufRead, Write};
 
 fn run_case(v: &serde_json::Value) -> Result<(String, String), String> {
@@ -15,10 +15,12 @@ fn run_case(v: &serde_json::Value) -> Result<(String, String), String> {
     let inputs: Vec<Vec<f64>> = v["inputs"].as_array().map(|a| {
         a.iter().map(|r| r.as_array().map(|x| x.iter().map(|f| f.as_f64().unwrap_or(0.0)).collect()).unwrap_or_default()).collect()
     }).unwrap_or_default();
+    // optional: the file the first source comes from (include / use paths of shipped sources are relative to it)
+    let path = v["path"].as_str().map(std::path::PathBuf::from);
     let mut notes = vec![];
     let mut out = vec![];
     if backend == "vm" {
-        let mut vm = vm_start(&srcs[0], false).map_err(|e| format!("compile-error {}", e.join(" | ")))?;
+        let mut vm = vm_start_at(&srcs[0], false, path).map_err(|e| format!("compile-error {}", e.join(" | ")))?;
         for t in 0..times {
             for (et, k) in &events {
                 if *et == t {
@@ -35,7 +37,7 @@ fn run_case(v: &serde_json::Value) -> Result<(String, String), String> {
             out.push(o.iter().map(|b| canon_bits(*b)).collect::<Vec<_>>().join(","));
         }
     } else {
-        let mut w = wasm_start(&srcs[0], false).map_err(|e| format!("compile-error {}", e.join(" | ")))?;
+        let mut w = wasm_start_at(&srcs[0], false, path).map_err(|e| format!("compile-error {}", e.join(" | ")))?;
         for t in 0..times {
             for (et, k) in &events {
                 if *et == t {
